@@ -23,7 +23,8 @@ RULE = ("cases = every template AST within the node/depth bound built by the gen
         "RenderTemplateToDocument) and the paragraph texts joined by newline are compared with the concretised expectation; "
         "a deviating case is reported under the minimal set of construct classes (Tmpl!Classes) that deviates in the run")
 
-LAWS = ["Inv_Verbatim", "Inv_Unused", "Inv_AbsentFalse", "Inv_Dual", "Inv_Blocks", "Inv_LoopHom", "Inv_Norm", "Inv_Data"]
+LAWS = ["Inv_Verbatim", "Inv_Opaque", "Inv_Unused", "Inv_AbsentFalse", "Inv_Dual", "Inv_Blocks", "Inv_Names", "Inv_LoopHom",
+        "Inv_Norm", "Inv_Data"]
 
 
 def S(*xs):
@@ -33,16 +34,16 @@ def S(*xs):
 FULL = dict(
     Lits=S("p1", "p2", "nl", "br1", "br2", "x1"), Vars=S("v1", "v2"), Conds=S("c1", "c2"),
     Flds=S("f1", "f2"), QFlds=S("q1", "q2"), SubS=S("sub"), SubM=S("subm"), GFlds=S("g1"), RFlds=S("r1"),
-    Blocks=S("b1", "b2"), Imgs=S("im1", "im2"), LoopLeafs=S("this", "idx", "first", "last"),
-    VarVals=S("p1", "n1", "n2", "bT", "e1", "d1", "d2", "d3", "d4", "s1", "w1", "x1"),
-    ThisVals=S("p1", "n1", "bF", "e1", "d1", "d2", "d3", "d4", "s1", "w1", "x1"),
-    FldVals=S("p1", "n0", "e1", "d1", "d2", "d3", "d4", "s1", "w1", "x1"),
+    Blocks=S("b1", "b2", "h1"), TNames=S("t1", "t2"), Imgs=S("im1", "im2"), LoopLeafs=S("this", "idx", "first", "last"),
+    VarVals=S("p1", "n1", "n2", "bT", "e1", "d1", "d2", "d3", "d4", "s1", "w1", "x1", "rv1", "rv2", "rf1"),
+    ThisVals=S("p1", "n1", "bF", "e1", "d1", "d2", "d3", "d4", "s1", "w1", "x1", "rv1", "rf1"),
+    FldVals=S("p1", "n0", "e1", "d1", "d2", "d3", "d4", "s1", "w1", "x1", "rv1", "rf1", "rf2"),
     CondVals=S("bT", "bF", "e1", "p1", "n0", "n1"),
 )
 
 BASE = dict(
     MinNodes=0, Lits=S("p1", "nl"), Vars=S("v1"), Conds=S("c1"), SLists=S("ls"), MLists=S("lm"),
-    Flds=S("f1"), QFlds=S("q1"), SubS=S("sub"), SubM=S(), GFlds=S(), RFlds=S(), Blocks=S("b1"), Imgs=S("im1"),
+    Flds=S("f1"), QFlds=S("q1"), SubS=S("sub"), SubM=S(), GFlds=S(), RFlds=S(), Blocks=S("b1"), TNames=S("t1"), Imgs=S("im1"),
     LoopLeafs=S("this", "idx"), CondOpens=S("if", "ife"), AllowExt=True,
     VarVals=S("p1", "d2"), ThisVals=S("p1"), FldVals=S("p1"), CondVals=S("bT", "bF"),
     NoiseOpts=vlib.Raw("{FALSE}"), Full2=False,
@@ -71,12 +72,18 @@ def tiers(ctx):
         # structure-focused: the non-plain value classes are covered in every position by the wide and loops layers
         mid.update(Lits=S("p1", "nl"), VarVals=S("p1", "d2"), ThisVals=S("p1"), FldVals=S("p1"),
                    CondVals=S("bT", "bF", "p1"), LoopLeafs=S("this", "idx"))
+    # values that mention another name of the data: two variables / two fields of one item, every way of supplying or
+    # omitting the mentioned name (also as data the template does not use), outside and inside a loop
+    refs = dict(Lits=S(), Vars=S("v1", "v2"), Conds=S(), SLists=S(), Flds=S("f1", "f2"), QFlds=S(), SubS=S(), Blocks=S(),
+                Imgs=S(), LoopLeafs=S(), CondOpens=S(), AllowExt=False, VarVals=S("p1", "rv1", "rv2", "rf1"),
+                FldVals=S("p1", "rv1", "rf1", "rf2"), NoiseOpts=NOISE)
     loops = dict(Lits=S(), Conds=S(), QFlds=S(), Blocks=S(), Imgs=S(), CondOpens=S(), AllowExt=False, CondVals=S("bT"))
     layers = {
         # every name, literal and value class in every position of the smallest templates
         "wide": consts(FULL, MaxNodes=2, MaxDepth=3, NoiseOpts=vlib.Raw("{FALSE}") if q else NOISE),
         # every combination of constructs over a reduced alphabet
-        "deep": consts(mid, MaxNodes=3 if q else 4, MaxDepth=3),
+        "deep": consts(mid, MaxNodes=3 if q else 4, MaxDepth=3, Blocks=S("b1", "h1")),
+        "refs": consts(refs, MaxNodes=3, MaxDepth=2),
     }
     if not q:
         # every loop shape up to two levels with every value class and with unused data
